@@ -250,6 +250,7 @@ func (s *Server) HandleDaemonConn(ctx context.Context, conn *Conn) (err error) {
 	s.logger.Printf("flags: %+v", flags)
 	osenv := &rsyncos.Env{Stderr: s.stderr}
 	pc := rsyncopts.NewContext(rsyncopts.NewOptionsWithGokrazyDefaults(osenv))
+	pc.ErrorOnExit = true // the client must not be able to terminate the daemon
 	if err := pc.ParseArguments(osenv, flags); err != nil {
 		err = fmt.Errorf("parsing server args: %v", err)
 
@@ -329,6 +330,7 @@ func (s *Server) InternalHandleConn(ctx context.Context, conn *Conn, module *Mod
 func (s *Server) HandleConnArgs(ctx context.Context, conn *Conn, module *Module, args []string) error {
 	osenv := &rsyncos.Env{Stderr: s.stderr}
 	pc := rsyncopts.NewContext(rsyncopts.NewOptionsWithGokrazyDefaults(osenv))
+	pc.ErrorOnExit = true
 	if err := pc.ParseArguments(osenv, args); err != nil {
 		return fmt.Errorf("parsing server args: %v", err)
 	}
